@@ -139,6 +139,11 @@ def probes_exact(rng, m):
             p[a] = lo[a] + jj * cell[a] + (d if cls == "face+tiny" else -d)
             if n[a] == 1:
                 p[a] = lo[a] + cell[a] / 2 + d
+            while F(float(p[a])) != p[a]:
+                # far from the origin such a tiny offset is not a binary64 number: halve the exponent until the
+                # probe is exactly representable (the exact regime compares exact rationals)
+                d *= 16
+                p[a] = lo[a] + jj * cell[a] + (d if cls == "face+tiny" else -d)
         elif cls == "corner":
             p = [rng.choice([lo[b], hi[b]]) for b in range(nd)]
         elif cls.startswith("hi+"):
@@ -237,6 +242,38 @@ def gen_bycell(rng, exact):
                 cell=[S(x) for x in c], tf=S(tf), cls=cls)
 
 
+def gen_bycell_far(rng, want_short):
+    """a commensurate request with ONE cell along an axis that sits far from the origin compared with the cell
+    (thin film on a thick substrate): the float edge differs from the cell by an ulp of the coordinate.
+    want_short: the rounded edge must come out SHORTER than the cell (the case a relative-to-edge guard refuses)"""
+    for _ in range(400):
+        nd = rng.choice([1, 2, 3])
+        s = rng.choice(SCALES)
+        p1, p2, c, cls = [], [], [], []
+        far = rng.randrange(nd)
+        short = False
+        for a in range(nd):
+            cell = round(rng.uniform(0.5, 9.5), 1) * s
+            if a == far:
+                k = 1
+                lo = rng.choice([-1, 1]) * rng.choice([1e3, 1e4, 1e5, 1e6, 1e7]) * round(rng.uniform(1, 9.9), 2) * cell
+                hi = lo + k * cell
+                short = (hi - lo) < cell
+                cls.append("multiple-far")
+            else:
+                k = rng.randint(1, 9)
+                lo = round(rng.uniform(-100, 100), 1) * s
+                hi = lo + k * cell
+                cls.append("multiple")
+            p1.append(lo)
+            p2.append(hi)
+            c.append(cell)
+        if short == want_short:
+            break
+    return dict(kind="bycell", exact=False, p1=[S(x) for x in p1], p2=[S(x) for x in p2],
+                cell=[S(x) for x in c], tf=S(DEFAULT_TF), cls=cls)
+
+
 def gen_bycell_large(rng):
     """many cells along one axis: a leftover of a fraction of a cell must still be refused"""
     nd = rng.choice([1, 1, 2, 3])
@@ -311,6 +348,8 @@ def generate(rng, tier):
         cases.append(gen_bycell(rng, exact=(k % 2 == 0)))
     for k in range(nm // 2):
         cases.append(gen_bycell_large(rng))
+    for k in range(max(8, nm // 4)):
+        cases.append(gen_bycell_far(rng, want_short=(k % 4 != 3)))
     return cases
 
 
